@@ -1,6 +1,7 @@
 -------------------------- MODULE ExprSyntax_Trace --------------------------
 (* B2 for C09: recorded compilations/evaluations of the REAL compiler            *)
-(*   {kind, tpl, text, out, errs, out2, errs2, panic}                            *)
+(*   {kind, tpl, text, out, errs, errn, out2, errs2, errn2, panic}               *)
+(*   (errs: the set of reported classes, errn: how many errors of each class)    *)
 (* kind "tree": the driver generated a random annotated tree `tpl` (depth <= 4,  *)
 (*   <= 4 arguments, large alphabets incl. multi-byte runes, random malformations)*)
 (*   and printed it itself as `text`; out/errs come from the optimising key      *)
@@ -22,6 +23,8 @@ tvars == <<l, bad, nontrivial>>
 
 
 ErrsOK(tpl, es) == ErrLower(tpl) \subseteq es /\ es \subseteq ErrUpper(tpl)
+\* every malformed statement is reported as an error of its own
+CountsOK(tpl, en) == \A cl \in ErrClasses : en[cl] >= ErrLowCnts(tpl)[cl]
 
 Class(r) ==
   IF r.panic THEN "panic"
@@ -31,6 +34,7 @@ Class(r) ==
   ELSE IF Mutated(r.tpl) THEN
     IF ~ErrClassOK(r.tpl) THEN "model"
     ELSE IF ~ErrsOK(r.tpl, ToSet(r.errs)) \/ ~ErrsOK(r.tpl, ToSet(r.errs2)) THEN "errs"
+    ELSE IF ~CountsOK(r.tpl, r.errn) \/ ~CountsOK(r.tpl, r.errn2) THEN "errcount"
     ELSE "ok"
   ELSE
     IF ~RoundTripOK(r.tpl) THEN "model"
